@@ -164,6 +164,30 @@ pub fn many_flush_family(rng: &mut Rng, s: &mut Script) -> Vec<u8> {
     plain
 }
 
+/// Dictionary-wrap runs (RLE and friends) or nearly incompressible data with a low match density, > 32 KiB.
+pub fn wrap_or_sparse_family(rng: &mut Rng, s: &mut Script) {
+    let n = rng.range(33_000, 110_000);
+    let plain;
+    if rng.chance(1, 2) {
+        plain = gen::segment(rng, 9, n, &[]);
+        s.set("strategy", rng.pick(&[3i64, 3, 3, 0, 1]));
+        s.set("level", rng.range(1, 10) as i64);
+        if rng.chance(1, 3) {
+            s.set("ctor", 0);
+            s.set("window_bits", rng.range(8, 11) as i64);
+        }
+    } else {
+        plain = gen::segment(rng, 10, n, &[]);
+        s.set("strategy", rng.pick(&[4i64, 4, 0, 1]));
+        s.set("level", rng.range(2, 10) as i64);
+        s.set("window_bits", 15);
+    }
+    let style = rng.next_u64();
+    let fp = rng.pick(&[0u64, 0, 5]);
+    s.ops = comp_ops(rng, n, style, &ALL_TDEFL, fp, false);
+    s.set_blob("plain", plain);
+}
+
 pub fn gen_c02(rng: &mut Rng, _i: u64, tier: Tier) -> Script {
     let mut s = Script::new("C02", "pipe");
     base_cfg(rng, &mut s, true);
@@ -176,6 +200,10 @@ pub fn gen_c02(rng: &mut Rng, _i: u64, tier: Tier) -> Script {
     if rng.chance(1, 2500) {
         let plain = many_flush_family(rng, &mut s);
         s.set_blob("plain", plain);
+        return s;
+    }
+    if rng.chance(1, 30) {
+        wrap_or_sparse_family(rng, &mut s);
         return s;
     }
     let heavy = rng.chance(1, 12);
@@ -302,6 +330,10 @@ pub fn gen_c10(rng: &mut Rng, _i: u64, tier: Tier) -> Script {
         let style = rng.next_u64();
         s.ops = comp_ops(rng, p.len(), style, &[0], 0, false);
         s.set_blob("plain", p);
+        return s;
+    }
+    if rng.chance(1, 30) {
+        wrap_or_sparse_family(rng, &mut s);
         return s;
     }
     let n = gen::plain_size(rng, if tier == Tier::Thorough { 12 } else { 6 });
